@@ -257,6 +257,17 @@ func (g *Gen) Roots(bs []Blk) []cid.Cid {
 			out = append(out, g.Block().C)
 		}
 	}
+	if g.pick(30) == 0 {
+		// a header with many roots (its length prefix is then two or three bytes long, its CBOR array head too)
+		many := 24 + g.pick(300)
+		for i := 0; i < many; i++ {
+			if len(bs) > 0 && i%3 == 0 {
+				out = append(out, bs[g.pick(len(bs))].C)
+			} else {
+				out = append(out, g.Block().C)
+			}
+		}
+	}
 	if g.pick(6) == 0 {
 		// a root whose CID length sits on a CBOR head boundary of the header encoding (the byte
 		// string holding a CID of 23 / 255 bytes is 24 / 256 long): identity CIDs of chosen length
